@@ -10,6 +10,12 @@ CLAIMS = {
  "C01": ("SSA branch-fact (must) dataflow + CFG reachability + callee summaries: who-may-write-OK, allow-site justification, static fault enumeration over every error/absent result",
          "Decides, for every path through Check/Process and every position at which a store, IdP or key-source call can fail, that no OK writer is reachable without the justification facts (fresh or just-refreshed-and-persisted tokens under the cookie's session id). Structural necessary conditions of the fail-closed property for all inputs and fault positions; does not decide whether a stored session ought to be alive (C10) nor library internals.",
          "go/types+go/ssa model of /repo; role table (verdict writers, store interface, token exchange, validator) resolved from types; jwx/net/http contracts assumed"),
+ "C06": ("type-resolved reference scan + SSA data-dependence slice from every generator method's result to a crypto/rand draw; production wiring by call-site provenance (whole-program SSA in thorough to follow oauth2.GenerateVerifier)",
+         "Decides for every code path that can produce a session id, state, nonce or PKCE verifier in the shipped sources that the value data-depends on bytes drawn from the OS CSPRNG in that activation, and that no math/rand, clock or carried-over generator state is reachable from it. This is the static argument the property itself asks for; statistical quality of crypto/rand is assumed.",
+         "go/ssa model; crypto/rand is a CSPRNG; oauth2.GenerateVerifier contract (re-derived from its SSA in the thorough tier)"),
+ "C07": ("interprocedural provenance of every matcher input to the splitter's path result; CFG outcome rules on the trigger decision, rule matcher and splitter; exhaustiveness of the pattern type switch against the generated oneof",
+         "Decides that no string other than the path component (result #0 of the splitter applied to the request target) can reach a pattern matcher or the empty-path test, that the splitter cuts at the first '?'/'#', and that the decision functions have the documented shape (disjunction over rules, excluded before included, empty lists) with an arm per pattern kind and the path as subject. The boolean function over all inputs is not enumerated.",
+         "go/ssa model; Envoy puts the query inside `path`; strings/regexp contracts"),
 }
 
 NOT_YET = "check under construction in this round; see DESIGN.md section 4 for the planned static rules"
